@@ -565,9 +565,18 @@ const InvisibleSeg = 1000000
 // path declared a second time in another version tree — while the model keeps the two tags apart.
 const AliasSeg = 10000
 
+// SpecialSeg: the tags SpecialSeg+k render as path segments that mean something to other parts of the framework
+// (the default observability exclusions, the usual probe and admin paths) — for the chain they are paths like any other.
+const SpecialSeg = 9000
+
+var SpecialNames = []string{"/health", "/metrics", "/debug", "/ready", "/live", "/healthz", "/admin", "/internal"}
+
 func seg(s int) string {
 	if s >= InvisibleSeg {
 		return ""
+	}
+	if k := s%AliasSeg - SpecialSeg; k >= 0 && k < len(SpecialNames) {
+		return SpecialNames[k]
 	}
 	return "/s" + strconv.Itoa(s%AliasSeg)
 }
@@ -597,6 +606,7 @@ type BuildOpts struct {
 	Obs      bool                 // app world: observability (logging to io.Discard) on — c.Response is the size-tracking observability writer
 	Tracing  bool                 // app world: app.WithObservability(app.WithTracing(tracing.WithNoop()))
 	Fmt      bool                 // app world: app.WithErrorFormatter(RFC 9457 with StatusResolver)
+	Health   bool                 // app world: app.WithHealthEndpoints() (built-in /livez and /readyz)
 	NoRoute  bool                 // a custom NoRoute handler that calls Abort() (served on a pooled context without a chain)
 	CtorMw   []int                // app world: middleware given through app.WithMiddleware(...) at construction
 	Defaults bool                 // app world: keep the default middleware (recovery)
@@ -640,6 +650,9 @@ func Build(script []Op, bo BuildOpts) (w *World, err error) {
 			aopts = append(aopts, app.WithObservability(app.WithLogging(logging.WithOutput(io.Discard))))
 		case bo.Tracing:
 			aopts = append(aopts, app.WithObservability(app.WithTracing(tracing.WithNoop())))
+		}
+		if bo.Health {
+			aopts = append(aopts, app.WithHealthEndpoints())
 		}
 		if bo.Fmt {
 			aopts = append(aopts, app.WithErrorFormatter(&rverrors.RFC9457{StatusResolver: StatusResolver}))
